@@ -1399,8 +1399,27 @@ def sweep_scenarios(rng, scens, per=1, cap=None):
                 path = rng.choice(lists)
                 cur = _get(victim["msgs"], path)
                 k = rng.choice(SWEEP_SMALL + [40, 64, 100])
-                _set(victim["msgs"], path, [copy.deepcopy(cur[i % len(cur)]) for i in range(k)])
-                tag = "+resize"
+                if rng.random() < 0.6:
+                    _set(victim["msgs"], path, [copy.deepcopy(cur[i % len(cur)]) for i in range(k)])
+                    tag = "+resize"
+                else:
+                    # insert a DEGENERATE sibling (every number 0, every list empty, every hex string empty) at a random position:
+                    # an all-zero template record between real ones, a set without records, a record without fields …
+                    def degenerate(x):
+                        if isinstance(x, bool) or x is None:
+                            return x
+                        if isinstance(x, int):
+                            return 0
+                        if isinstance(x, str):
+                            return x if x in ("fixed", "short", "long") else ""
+                        if isinstance(x, list):
+                            return []
+                        return {kk: degenerate(vv) for kk, vv in x.items()}
+                    new_l = list(cur)
+                    for _i in range(rng.choice([1, 1, 2])):
+                        new_l.insert(rng.randrange(0, len(new_l) + 1), degenerate(copy.deepcopy(rng.choice(cur))))
+                    _set(victim["msgs"], path, new_l)
+                    tag = "+insert"
             for o in new:
                 if o["op"] == "parse":
                     o["nospec"] = True
@@ -1485,6 +1504,54 @@ def fam_scaling(rng, tier):
             o = op_parse(pid, msgs=[small9, small10], want=["alloc"]); o["nospec"] = True; ops.append(o)
         ops.append({"op": "assert_scale", "a": 0, "b": 1, "k": 1})
         out.append(("scale-cache-%d" % n, ops))
+    return out
+
+
+
+def api_noise_scenarios(rng, scens, cap=150):
+    """history-level mutations that leave every single call meaningful: (a) the caller CHANGES the public allowed set between
+    two calls (widen / narrow / replace / empty / back to the default) — ops become `nospec`, the model follows the set;
+    (b) two independent scenarios INTERLEAVED call by call on disjoint parser ids (plus one shared thread in the harness):
+    nothing one parser instance learns may show in another."""
+    import copy
+    out = []
+    std = {"op", "p", "msgs", "hexs", "hex", "want", "nospec"}
+    plain = [(k, ops) for k, ops in scens
+             if not any(o["op"].startswith("assert_") or o["op"] in ("flat", "fixed_roundtrip", "allowed") for o in ops)
+             and not any(o["op"] == "parse" and (set(o) - std) for o in ops)
+             and all(o["op"] in ("new", "parse") for o in ops)]
+    multi = [(k, ops) for k, ops in plain if sum(1 for o in ops if o["op"] == "parse") >= 2]
+    for kind, ops in (rng.sample(multi, min(cap, len(multi))) if multi else []):
+        new = copy.deepcopy(ops)
+        idxs = [i for i, o in enumerate(new) if o["op"] == "parse"][1:]
+        res, changed = [], False
+        for i, o in enumerate(new):
+            if i in idxs and rng.random() < 0.5:
+                S = rng.choice([[5, 7, 9, 10], [v for v in (5, 7, 9, 10) if rng.random() < 0.5], [], [rng.choice([5, 7, 9, 10])], [9, 10], [5, 7]]) + extra_versions(rng, 0.15)
+                res.append({"op": "allowed", "p": o["p"], "set": S})
+                changed = True
+            res.append(o)
+        if not changed:
+            continue
+        for o in res:
+            if o["op"] == "parse":
+                o["nospec"] = True
+        out.append((kind + "+allowed", res))
+    pairs = min(cap, len(plain) // 2)
+    pool = rng.sample(plain, 2 * pairs) if pairs else []
+    for j in range(pairs):
+        (k1, a), (k2, b) = pool[2 * j], pool[2 * j + 1]
+        a, b = copy.deepcopy(a), copy.deepcopy(b)
+        for o in b:
+            if "p" in o:
+                o["p"] = o["p"] + 10
+        res, ia, ib = [], 0, 0
+        while ia < len(a) or ib < len(b):
+            if ib >= len(b) or (ia < len(a) and rng.random() < 0.5):
+                res.append(a[ia]); ia += 1
+            else:
+                res.append(b[ib]); ib += 1
+        out.append((k1 + "+interleaved", res))
     return out
 
 
